@@ -16,11 +16,24 @@ class Cfg:
         self.expansion_rate = expansion_rate
         self.hname = hname
         self.hf = hf  # None = library default (fnv_1a)
+        self.err_bits = None  # set: the filter is sized by ERROR RATE (fingerprint of err_bits bits, not a whole number of bytes)
+
+    def by_error_rate(self, bits):
+        """size the filter by an error rate that needs exactly `bits` fingerprint bits (rate = 1.3 * 2b/2^bits: well away from a breakpoint)"""
+        self.err_bits = bits
+        self.finger_size = (bits + 7) // 8
+        return self
+
+    @property
+    def error_rate(self):
+        # evaluated late: workloads adjust bucket_size after drawing the configuration
+        return 2 * self.bucket_size / 2.0**self.err_bits * 1.3  # err_bits bits suffice (2b/2^bits <= rate), err_bits-1 do not
 
     def desc(self):
         return {"cls": "CountingCuckooFilter" if self.counting else "CuckooFilter", "capacity": self.capacity, "bucket_size": self.bucket_size,
                 "max_swaps": self.max_swaps, "finger_bytes": self.finger_size, "auto_expand": self.auto_expand,
-                "expansion_rate": self.expansion_rate, "hash": self.hname}
+                "expansion_rate": self.expansion_rate, "hash": self.hname,
+                **({"sized_by_error_rate": self.error_rate, "finger_bits": self.err_bits} if self.err_bits else {})}
 
     def ref_hash(self, key):
         """independent evaluation of the hash the filter uses for `key` (bytes/ASCII keys only)"""
@@ -29,7 +42,7 @@ class Cfg:
         return refimpl.fnv1a_64(gen.to_bytes(key), 0)
 
     def raw_fp(self, key):
-        return self.ref_hash(key) & ((1 << (8 * self.finger_size)) - 1)
+        return self.ref_hash(key) & ((1 << (self.err_bits or 8 * self.finger_size)) - 1)
 
     def candidates(self, fp, capacity):
         h2 = self.hf(str(fp)) if self.hf is not None else refimpl.fnv1a_64(str(fp).encode("ascii"), 0)
@@ -38,26 +51,38 @@ class Cfg:
     def make(self, P):
         cls = P.CountingCuckooFilter if self.counting else P.CuckooFilter
         kw = {} if self.hf is None else {"hash_function": self.hf}
+        if self.err_bits:
+            return cls.init_error_rate(self.error_rate, capacity=self.capacity, bucket_size=self.bucket_size, max_swaps=self.max_swaps,
+                                       expansion_rate=self.expansion_rate, auto_expand=self.auto_expand, **kw)
         return cls(capacity=self.capacity, bucket_size=self.bucket_size, max_swaps=self.max_swaps, expansion_rate=self.expansion_rate,
                    auto_expand=self.auto_expand, finger_size=self.finger_size, **kw)
 
     def reload(self, P, f, channel, scratch):
         cls = P.CountingCuckooFilter if self.counting else P.CuckooFilter
         kw = {} if self.hf is None else {"hash_function": self.hf}
-        if channel == "bytes":
+        if self.err_bits:
+            # the documented way back for a filter sized by error rate: the rate is re-supplied to the loader
+            if channel == "bytes":
+                g = cls.frombytes(bytes(f), error_rate=self.error_rate, **kw)
+            else:
+                p = scratch.path("ck")
+                f.export(p)
+                g = cls.load_error_rate(self.error_rate, p, **kw)
+        elif channel == "bytes":
             g = cls.frombytes(bytes(f), **kw)
         else:
             p = scratch.path("ck")
             f.export(p)
             g = cls(filepath=p, **kw)
         # what the format does not store is re-supplied
-        g.fingerprint_size = self.finger_size
+        if not self.err_bits:
+            g.fingerprint_size = self.finger_size
         g.auto_expand = self.auto_expand
         g.expansion_rate = self.expansion_rate
         return g
 
 
-def gen_cfg(rng, counting=None, small=True):
+def gen_cfg(rng, counting=None, small=True, allow_rate=True):
     counting = rng.random() < 0.5 if counting is None else counting
     capacity = rng.choice([1, 2, 2, 3, 4, 4, 5, 6, 7, 8]) if small else rng.choice([4, 8, 16, 32])
     bucket_size = rng.choice([1, 1, 2, 2, 3, 4])
@@ -65,7 +90,11 @@ def gen_cfg(rng, counting=None, small=True):
     finger_size = rng.choice([1, 1, 2, 3, 4])
     auto_expand = rng.random() < 0.5
     expansion_rate = rng.choice([2, 2, 2, 3, 3, 1])  # 1: a legal but non-growing rate (an "expansion" rebuilds a table of the same size)
-    return Cfg(counting, capacity, bucket_size, max_swaps, finger_size, auto_expand, expansion_rate, "library_default", None)
+    cfg = Cfg(counting, capacity, bucket_size, max_swaps, finger_size, auto_expand, expansion_rate, "library_default", None)
+    r = rng.random()
+    if allow_rate and r < 0.15:
+        cfg.by_error_rate(rng.choice([3, 4, 5, 7, 9, 11, 12, 13, 17, 20, 31]))
+    return cfg
 
 
 def gen_keys(rng, cfg, n):
